@@ -91,7 +91,8 @@ def events_in(an, blocks, body):
                     ev.add('try_acquire')
                 if n.endswith('IntoFuture::into_future'):
                     src = sources(an, t.args[0])
-                    if any(s[0] == 'upvar' and s[1].startswith('future') for s in src):
+                    futs = body.upvars_where(lambda ty: ty.startswith('impl ') or (ty.isidentifier() and len(ty) <= 3))
+                    if any(s[0] == 'upvar' and s[1].split('.')[0] in futs for s in src):
                         ev.add('await-future')
         for s in blk.stmts:
             if s.kind == 'assign' and s.rv.kind == 'agg' and s.rv.j.get('ak') == 'adt' and s.rv.j['adt'].endswith('PoolError'):
@@ -222,7 +223,14 @@ def run(ctx):
         ctx.undecide('R10.2', 'apply_timeout: (runtime, duration) match not found')
     else:
         tl, a0, a1 = tup
-        idx = {'runtime': '0' if a0.startswith('runtime') else '1', 'duration': '0' if a0.startswith('duration') else '1'}
+        # which element is which is told by the captured variable's type, not by its name
+        rt_names = at.upvars_where(lambda ty: ty.startswith('std::option::Option<') and ty.endswith('Runtime>'))
+        du_names = at.upvars_of_type('std::option::Option<std::time::Duration>')
+        fu_names = at.upvars_where(lambda ty: ty.startswith('impl '))
+        tt_names = at.upvars_where(lambda ty: ty.endswith('::TimeoutType'))
+        if not ((a0.split('.')[0] in rt_names and a1.split('.')[0] in du_names) or (a1.split('.')[0] in rt_names and a0.split('.')[0] in du_names)):
+            raise Undecided('apply_timeout: the matched pair is not (runtime, duration): %s, %s' % (a0, a1))
+        idx = {'runtime': '0' if a0.split('.')[0] in rt_names else '1', 'duration': '0' if a0.split('.')[0] in du_names else '1'}
         table = {}
         for rt in ('None', 'Some'):
             for du in ('None', 'Some'):
@@ -250,12 +258,12 @@ def run(ctx):
                'error-discarding calls %s; map_err(Into::into) sites %d (one per awaiting row expected)' % (oks, len(intos)), construct='apply_timeout:inner-error')
         # Timeout carries the timeout_type argument
         tts = [aan.resolve_operand(s.rv.ops[0]) for blk in at.blocks for s in blk.stmts if s.kind == 'assign' and s.rv.kind == 'agg' and s.rv.j.get('adt') == POOLERR and s.rv.j['variant'] == 'Timeout']
-        ctx.ob('R10.2', 'Timeout carries the type passed by the caller', tts == ['timeout_type'], ctx.where(at), str(tts), construct='apply_timeout:timeout-type')
+        ctx.ob('R10.2', 'Timeout carries the type passed by the caller', len(tts) == 1 and tts[0] in tt_names, ctx.where(at), str(tts), construct='apply_timeout:timeout-type')
         # Runtime::timeout receives the duration and the future
         for blk in at.blocks:
             if blk.term.kind == 'call' and 'deadpool_runtime::Runtime::timeout' in blk.term.callee_names() and not blk.cleanup:
                 s1 = sources(aan, blk.term.args[1]); s2 = sources(aan, blk.term.args[2])
-                ok = any(x[0] == 'upvar' and x[1].startswith('duration') for x in s1) and any(x[0] == 'upvar' and x[1].startswith('future') for x in s2)
+                ok = any(x[0] == 'upvar' and x[1].split('.')[0] in du_names for x in s1) and any(x[0] == 'upvar' and x[1].split('.')[0] in fu_names for x in s2)
                 ctx.ob('R10.2', 'Runtime::timeout gets the given duration and future', ok, ctx.where(at, blk.term.line), '', construct='apply_timeout:timeout-args')
 
     # ---- R10.3 call sites ---------------------------------------------------------------------------------------
@@ -357,18 +365,26 @@ def run(ctx):
 
     # ---- R10.7 unmanaged timeout_get -----------------------------------------------------------------------------------------
     u = uroles(ctx)
-    tg = u.TIMEOUT_GET
+    # the decision may sit in an async helper of timeout_get: the coroutine (timeout_get itself or one it awaits) that
+    # matches on (the per-call timeout, the configured runtime); the timeout is the captured Option<Duration>, whatever its name
+    cands = [u.TIMEOUT_GET] + [prog.bodies[blk.term.rcallee] for blk in u.TIMEOUT_GET.blocks if blk.term.kind == 'call' and not blk.cleanup and blk.term.rcallee in prog.bodies and
+                               prog.bodies[blk.term.rcallee].is_coroutine and blk.term.rcallee.startswith('deadpool::unmanaged')]
+    tg = u.TIMEOUT_GET; tup = None
+    for cand in cands:
+        can_ = prog.an(cand)
+        tnames = cand.upvars_of_type('std::option::Option<std::time::Duration>')
+        is_to = lambda o: any(x[0] == 'upvar' and x[1].split('.')[0] in tnames for x in o)
+        is_rt = lambda o: any(x[0] == 'field' and x[1].endswith('PoolConfig.runtime') for x in o)
+        for blk in cand.blocks:
+            for s in blk.stmts:
+                if s.kind == 'assign' and s.rv.kind == 'agg' and s.rv.j['ak'] == 'tuple' and len(s.rv.ops) == 2 and s.place.is_local():
+                    o0 = sources(can_, s.rv.ops[0]); o1 = sources(can_, s.rv.ops[1])
+                    if is_to(o0) and is_rt(o1):
+                        tg, tup = cand, (s.place.local, '0', '1')
+                    elif is_to(o1) and is_rt(o0):
+                        tg, tup = cand, (s.place.local, '1', '0')
     tan = prog.an(tg)
     ctx.saw(tg)
-    tup = None
-    for blk in tg.blocks:
-        for s in blk.stmts:
-            if s.kind == 'assign' and s.rv.kind == 'agg' and s.rv.j['ak'] == 'tuple' and len(s.rv.ops) == 2 and s.place.is_local():
-                o0 = sources(tan, s.rv.ops[0]); o1 = sources(tan, s.rv.ops[1])
-                if any(x[0] == 'upvar' and x[1].startswith('timeout') for x in o0) and any(x[0] == 'field' and x[1].endswith('PoolConfig.runtime') for x in o1):
-                    tup = (s.place.local, '0', '1')
-                elif any(x[0] == 'upvar' and x[1].startswith('timeout') for x in o1) and any(x[0] == 'field' and x[1].endswith('PoolConfig.runtime') for x in o0):
-                    tup = (s.place.local, '1', '0')
     if tup is None:
         ctx.undecide('R10.7', 'unmanaged timeout_get: (timeout, runtime) match not found')
     else:
@@ -402,7 +418,7 @@ def run(ctx):
         for blk in tg.blocks:
             if blk.term.kind == 'call' and 'deadpool_runtime::Runtime::timeout' in blk.term.callee_names() and not blk.cleanup:
                 s1 = sources(tan, blk.term.args[1])
-                ctx.ob('R10.7', 'Runtime::timeout gets the per-call timeout', any(x[0] == 'upvar' and x[1].startswith('timeout') for x in s1), ctx.where(tg, blk.term.line), '', construct='u-timeout:duration')
+                ctx.ob('R10.7', 'Runtime::timeout gets the per-call timeout', any(x[0] == 'upvar' and x[1].split('.')[0] in tg.upvars_of_type('std::option::Option<std::time::Duration>') for x in s1), ctx.where(tg, blk.term.line), '', construct='u-timeout:duration')
 
     # ---- R10.8 deadpool-runtime ----------------------------------------------------------------------------------------------
     rt = prog.body('deadpool_runtime::Runtime::timeout::{closure#0}')
@@ -420,7 +436,8 @@ def run(ctx):
         if ok:
             c = calls[0]
             s0 = sources(ran, c.term.args[0]); s1 = sources(ran, c.term.args[1])
-            ok = any(x[0] == 'upvar' and x[1].startswith('duration') for x in s0) and any(x[0] == 'upvar' and x[1].startswith('future') for x in s1)
+            ok = any(x[0] == 'upvar' and x[1].split('.')[0] in rt.upvars_of_type('std::time::Duration') for x in s0) and \
+                any(x[0] == 'upvar' and x[1].split('.')[0] in rt.upvars_where(lambda ty: ty.isidentifier() or ty.startswith('impl ')) for x in s1)
         ctx.ob('R10.8', 'Tokio1: Runtime::timeout calls tokio::time::timeout(duration, future)', ok, ctx.where(rt), '', construct='runtime:tokio-timeout')
         oks = [blk for blk in rt.blocks if blk.term.kind == 'call' and not blk.cleanup and 'std::result::Result::ok' in blk.term.callee_names()]
         ok8 = len(oks) == 1 and bool(calls) and ran.dominates(calls[0].idx, oks[0].idx) if oks else False
